@@ -11,7 +11,8 @@ def queries(tier, kfs):
                         dict(SINGLE=single), unwind=16, bounds=dict(n='every non-NaN binary64', graph='single' if single else 'multi')))
     # (ii) linear case n = 1: erosion_i == old_i - new_i with new_i the direct solution of the backward-Euler equation
     # (limited at the receivers' new level, zero in lakes and at self receivers), decided PER NODE (cone of influence), cvc5/cadical race
-    structs = [(1, 3, 2, 1, 1, 1, (0, 1)), (2, 4, 2, 1, 0, 1, (1, 2)), (3, 4, 2, 0, 0, 1, (1, 2)), (4, 4, 2, 1, 1, 1, (2, 3))]
+    structs = [(1, 3, 2, 1, 1, 1, (0, 1)), (2, 4, 2, 1, 0, 1, (1, 2)), (3, 4, 2, 0, 0, 1, (1, 2)), (4, 4, 2, 1, 1, 1, (2, 3)),
+               (6, 3, 2, 0, 0, 1, (2,))]   # 6: node with two terminal receivers, one of which may be HIGHER than the node
     if tier != 'quick':
         structs += [(1, 3, 2, 1, 1, 1, (2,)), (4, 4, 2, 1, 1, 1, (1,)), (2, 4, 2, 1, 0, 1, (3,)), (3, 4, 2, 0, 0, 1, (3,)), (1, 3, 2, 1, 1, 2, (1, 2)), (5, 5, 2, 0, 0, 1, (1, 2))]
     for (sid, n, d, single, kscalar, rounds, nodes) in structs:
